@@ -633,3 +633,116 @@ Print Assumptions c17_seg_bounds_trace.
 Print Assumptions c17_fin_after_data_ok_step_inv.
 Print Assumptions c17_fin_after_data_noerr_trace.
 Print Assumptions c17_fin_after_data_ok_open_trace.
+
+(* ================================================================== trace level: the peer's FIN (d) and the
+   numbering of our own FIN (c) against every trace of the model (proofs in Conn/C17_Trace.v; the corrected
+   and guarded predicates in Conn/C17_Pred2.v) *)
+From Utp Require Import Conn.C17_Pred2 Conn.C17_TraceLemmas Conn.C17_Trace.
+
+Section TraceLevel.
+Context {CC : Type} (cci : cc_iface CC).
+Notation vsock := (vsock CC).
+
+(* (d) c17_peer_fin_ok AS WRITTEN IS FALSE of the model (c17_peer_fin_ok_refuted below).  The corrected form
+   c17_peer_fin_ok2 - out-of-sequence FINs: last_consumed and the state kept, the number of slots held out of
+   order kept, bytes only moved from the reassembly queue to the reader's queue (nothing moves when nothing
+   was waiting); the FIN in sequence in Established: consumed, LastAck numbered with seq_nr, acknowledged
+   in the same poll unless the transport refused; a panicking poll not judged - holds along every trace from
+   vsock_new on a valid configuration *)
+Theorem c17_peer_fin_ok2_trace :
+  forall mk c cfg (s0 : vsock) ops,
+  C10_Pred.vconfig_ok c = true -> vsock_new cci mk c = Some s0 ->
+  c17_peer_fin_ok2 cfg (ftrace cci s0 ops) = true.
+Proof. exact (C17_Trace.c17_peer_fin_ok2_trace cci). Qed.
+
+(* (d) and the predicate as written, under the monitored guard: no poll of the trace panics and no poll starts
+   with consumed slots waiting in the reassembly queue (c17_peer_fin_guarded cfg tr =
+   if forallb c17_peer_fin_guard_step tr then c17_peer_fin_ok cfg tr else true) *)
+Theorem c17_peer_fin_guarded_trace :
+  forall mk c cfg (s0 : vsock) ops,
+  C10_Pred.vconfig_ok c = true -> vsock_new cci mk c = Some s0 ->
+  c17_peer_fin_guarded cfg (ftrace cci s0 ops) = true.
+Proof. exact (C17_Trace.c17_peer_fin_guarded_trace cci). Qed.
+
+(* (d) what the walk rests on.  A poll that finds only out-of-sequence FINs in the inbox of a data state *)
+Theorem c17_peer_fin_oos_poll :
+  forall (s : vsock) sc s' r,
+  is_data_state (v_state s) = true -> v_inbox_closed s = false ->
+  forallb (oos_fin (v_last_consumed s)) (map m_hdr (v_inbox s)) = true ->
+  poll cci (VSockRec.set_sends s sc) = (s', r) ->
+  is_data_state (v_state s') = true /\ v_inbox_closed s' = false /\
+  v_last_consumed s' = v_last_consumed s /\
+  forallb (oos_fin (v_last_consumed s)) (map m_hdr (v_inbox s')) = true /\
+  rxrel (v_rx s) (v_rx s').
+Proof. exact (peer_fin_oos_poll cci). Qed.
+
+(* (d) a poll that finds exactly the in-sequence FIN in the inbox of Established, no immediate ACK owed: unless
+   it panics it ends with the FIN consumed, in LastAck (our FIN numbered with the seq_nr of before) or Closed,
+   and either the forced ACK is still owed or a datagram acknowledging the FIN went out *)
+Theorem c17_peer_fin_inseq_poll :
+  forall (s : vsock) sc m s' r,
+  v_state s = Established -> v_inbox s = [m] -> v_inbox_closed s = false ->
+  immediate_ack_to_transmit s = false ->
+  ch_type (m_hdr m) = ST_FIN -> in_seq s (m_hdr m) ->
+  poll cci (VSockRec.set_sends s sc) = (s', r) -> r <> PollPanic ->
+  v_last_consumed s' = ch_seq (m_hdr m) /\
+  (v_state s' = LastAck (v_seq_nr s) (ch_seq (m_hdr m)) \/ v_state s' = Closed) /\
+  v_inbox s' = [] /\ v_inbox_closed s' = false /\
+  (v_cbu s' = USIZE_MAX \/ exists p, In p (v_out s') /\ ch_ack (p_hdr p) = ch_seq (m_hdr m)).
+Proof. exact (peer_fin_inseq_poll cci). Qed.
+
+(* the relation every function of a poll other than the processing of one message satisfies, for a whole
+   poll: an invariant kept by RX steps, by process_incoming_message and by the channel-closed arm is kept by poll *)
+Theorem c17_poll_inv :
+  forall (Inv : vsock -> Prop),
+  (forall s s', RX s s' -> Inv s -> Inv s') ->
+  (forall s m rest, Inv s -> v_inbox s = m :: rest ->
+     match process_incoming_message cci (set_inbox s rest) m with
+     | SOk s' _ | SErr s' _ => Inv s'
+     | SPanic => True
+     end) ->
+  (forall s, Inv s -> v_inbox_closed s = true -> Inv (set_state s Closed)) ->
+  forall (s s' : vsock) r, poll cci s = (s', r) -> Inv (VSock_Lemmas.poll_init s) -> Inv s'.
+Proof. exact (poll_Inv cci). Qed.
+
+End TraceLevel.
+
+(* (d) counterexample: c17_peer_fin_ok is false of the model (a poll flushes what an earlier poll consumed) *)
+Theorem c17_peer_fin_ok_refuted :
+  exists cfg ops s0,
+    C10_Pred.vconfig_ok cfg = true /\
+    vsock_new (fixed_cc 4096) (fun _ _ => tt) cfg = Some s0 /\
+    c17_peer_fin_ok cfg (ftrace (fixed_cc 4096) s0 ops) = false.
+Proof. exact C17_Trace.c17_peer_fin_ok_refuted. Qed.
+
+(* its shape: 1500 bytes consumed but not flushed (reader's queue full), read, then an out-of-sequence FIN:
+   the poll moves the 1500 bytes; the corrected predicate holds; the guard of the guarded form fails *)
+Theorem c17_peer_fin_refuted_shape : pf_refuted_b = true.
+Proof. exact C17_Trace.c17_peer_fin_refuted_shape. Qed.
+
+Theorem c17_peer_fin_guard_satisfiable : pf_guard_b = true.
+Proof. exact C17_Trace.c17_peer_fin_guard_satisfiable. Qed.
+
+(* (c) DEFECT D6 (found by the attempt to prove c17_fin_seq_ok, confirmed on the real code, repaired in /repo
+   4d912d4 + f62adfc): an MTU probe given up after our FIN was numbered (expired, or refused with EMSGSIZE on
+   its retransmission by the new-data loop) was cut again and its second part took the FIN's sequence number -
+   an ST_DATA numbered like the FIN on the wire, or (default options) the last bytes never sent and Ready(Ok).
+   The four former witnesses (both forms, Nagle off / default options) are regressions: c17_fin_seq_ok, the new
+   step predicate c17_fin_covers_data_ok and every other predicate of C17 hold on the same op lists, and no
+   ST_DATA carries the number of an ST_FIN *)
+Theorem c17_fin_seq_regression : d6_regression_b = true.
+Proof. exact C17_Trace.c17_fin_seq_regression. Qed.
+
+Theorem c17_fin_covers_data_regression : d6_loss_regression_b = true.
+Proof. exact C17_Trace.c17_fin_covers_data_regression. Qed.
+
+Print Assumptions c17_peer_fin_ok2_trace.
+Print Assumptions c17_peer_fin_guarded_trace.
+Print Assumptions c17_peer_fin_oos_poll.
+Print Assumptions c17_peer_fin_inseq_poll.
+Print Assumptions c17_poll_inv.
+Print Assumptions c17_peer_fin_ok_refuted.
+Print Assumptions c17_peer_fin_refuted_shape.
+Print Assumptions c17_peer_fin_guard_satisfiable.
+Print Assumptions c17_fin_seq_regression.
+Print Assumptions c17_fin_covers_data_regression.
